@@ -92,6 +92,13 @@ func raceBody(g, it int, u *udpBMC) error {
 			return fmt.Errorf("GetSensorInfo = %+v, %v", si, err)
 		}
 	}
+	// commands the BMC refuses with less common completion codes (0xCB, 0xC1)
+	if _, err := sess.GetSensorReading(ctx, byte(0x90+g)); err == nil {
+		return fmt.Errorf("GetSensorReading of an unknown sensor succeeded")
+	}
+	if g%2 == 1 {
+		sess.SendCommand(ctx, &rawCmd{op: ipmi.Operation{Function: 0x30, Command: ipmi.CommandNumber(0x10 + g)}, body: []byte{byte(it)}})
+	}
 	if err := sess.Close(ctx); err != nil {
 		return fmt.Errorf("Close: %v", err)
 	}
